@@ -1,8 +1,8 @@
 from vpkg.core import Unit
 from vpkg import csrc
 _t = csrc.Tree()
-_st = [f.name for f in _t.by_file["/repo/src/state/bidib_state.c"] if f.name not in ("bidib_dcc_speed_to_lib_format", "bidib_lib_speed_to_dcc_format")]
-_hs = [f.name for f in _t.by_file["/repo/src/highlevel/bidib_highlevel_setter.c"]]
+_st = [f.name for f in _t.by_file[csrc.REPO + "/src/state/bidib_state.c"] if f.name not in ("bidib_dcc_speed_to_lib_format", "bidib_lib_speed_to_dcc_format")]
+_hs = [f.name for f in _t.by_file[csrc.REPO + "/src/highlevel/bidib_highlevel_setter.c"]]
 UNITS = [
     Unit(name="C09.speed", src="units/C09/speed.c", functions=["bidib_lib_speed_to_dcc_format", "bidib_dcc_speed_to_lib_format"], props=["C09", "C07"],
          no_dfcc=True, remove_bodies=_st, extra_flags=["--nondet-static"], covers=1, min_obligations=5, note="loop-free: complete over every speed 0..126 x direction and all 256 DCC bytes"),
@@ -15,4 +15,13 @@ UNITS = [
          remove_bodies=[f for f in _hs if f not in ("bidib_set_train_peripheral", "bidib_get_current_train_peripheral_bits")],
          extra_flags=["--nondet-static", "--unwind", "34"], timeout=3000, tier="thorough", covers=1, min_obligations=8,
          stubbed_contracts=["bidib_state_get_train_ref", "bidib_state_get_board_ref", "bidib_state_get_train_state_ref", "bidib_state_get_train_peripheral_state_by_bit", "bidib_send_cs_drive_intern"]),
+] + [
+    Unit(name="C09." + n, src="units/C09/accessory.c", defines=["VP_KIND=%d" % k], functions=fns, props=["C09"], no_dfcc=True, kind="bounded",
+         bound="configuration of 2 boards x (1 board accessory + 1 DCC accessory | 1 peripheral), 2 aspects per mapping, 2 port values per DCC aspect; ids single arbitrary characters, content arbitrary; loops unwound completely",
+         remove_bodies=[f for f in _hs if f not in fns], extra_flags=["--nondet-static", "--unwind", "6"], covers=3, min_obligations=8, timeout=600,
+         stubbed_contracts=["bidib_send_accessory_set / bidib_send_cs_accessory_intern / bidib_send_lc_output (recording)", "bidib_state_get_dcc_accessory_state_ref (NULL or the state)"],
+         note="ids pairwise distinct (C14 invariant of the parser); DCC port values 0/1 and extended flag 0/1 (parser ranges) assumed")
+    for n, k, fns in [("switch_point", 0, ["bidib_switch_point", "bidib_get_aspect_by_id", "bidib_get_dcc_aspect_by_id"]),
+                      ("set_signal", 1, ["bidib_set_signal", "bidib_get_aspect_by_id", "bidib_get_dcc_aspect_by_id"]),
+                      ("set_peripheral", 2, ["bidib_set_peripheral", "bidib_get_aspect_by_id"])]
 ]
